@@ -68,7 +68,7 @@ VARIANTS = [
     V( 'frame-length-big-endian', PARSER, 'cmnd[True] = leng = UINT( "length", context="length" )', 'cmnd[True] = leng	= UINT_network(	"length",	context="length" )', fires=[ 'G-FRAME' ] ),
     V( 'ref-wrong-level', PARSER, "ilen[None] = decide( cls.__name__, state=cls( terminal=True, limit='..length' ),", "ilen[None]		= decide( cls.__name__, state=cls( terminal=True, limit='.length' ),", fires=[ 'G-REF' ] ),
     V( 'ref-count-typo', PARSER, "initial=item, repeat='.count',", "initial=item,	repeat='.counts',", fires=[ 'G-REF' ] ),
-    V( 'bound-cpf-item-limit-dropped', PARSER, "state=cls( terminal=True, limit='..length' ),", "state=cls( terminal=True ),", fires=[ 'G-BOUND' ] ),
+    V( 'bound-cpf-item-limit-dropped', PARSER, "state=cls( terminal=True, limit='..length' ),", "state=cls( terminal=True ),", fires=[ 'G-LIMITS' ], why='G-BOUND no longer sees it: since the repair of BB the item length is used by the raw fall-through' ),
     V( 'bound-epath-size-limit-dropped', PARSER, "limit=None if self.SINGLE else size_init )", "limit=None )", fires=[ 'G-BOUND', 'T-SEGMENTS' ] ),
     V( 'progress-noop-offsets', DEVICE, "numr[None] = offs = dfa( 'offsets',\n initial=off_, repeat='.multiple.number' )\n # And finally, absorb all remaining data as the request data.\n offs[None] = reqd = octets( 'requests', context='multiple',\n octets_extension=\".request_data\",\n terminal=True )\n reqd[True] = reqd\n reqd[None] = state_multiple_service( 'requests',\n terminal=True )\n return srvc\nMessage_Router.register_service_parser( number=Message_Router.MULTIPLE_REQ",
        "numr[None]		= offs	= dfa(		'offsets',\n                                                initial=octets_noop( 'nothing', terminal=True ),	repeat='.multiple.number' )\n    offs[None]		= reqd	= octets(	'requests',	context='multiple',\n                                                octets_extension=\".request_data\",\n                                                terminal=True )\n    reqd[True]			= reqd\n    reqd[None]			= state_multiple_service( 'requests',\n                                                terminal=True )\n    return srvc\nMessage_Router.register_service_parser( number=Message_Router.MULTIPLE_REQ", fires=[ 'G-PROGRESS' ] ),
@@ -419,6 +419,16 @@ VARIANTS = [
     V( 'pace-soft-handler-catches-stream-errors', HFILES, "except ValueError as exc:\n # The line (already consumed)", "except Exception as exc:\n                    # The line (already consumed)", fires=[ 'H-PACE' ], why='defect AW reverted: a truncated .gz spins' ),
     V( 'pace-soft-handler-tuple-of-parse-errors', HFILES, "except ValueError as exc:\n # The line (already consumed)", "except ( ValueError, AssertionError ) as exc:\n                    # The line (already consumed)", silent=[ 'H-PACE' ] ),
     V( 'validate-extent-clamped-under-assert', LOGIX, "endactual = beg + elm", "endactual		= min( beg + elm, cnt )", fires=[ 'D-VALIDATE' ], why='seed C14-2: with the extent assert of AQ in place a clamp makes it vacuous' ),
+    V( 'limits-unrecognized-item-unbounded', PARSER, "ilen[None] = urec = octets( 'unrecognized', context=None,\n repeat='.length',\n terminal=True )", "ilen[None]	= urec	= octets( 	'unrecognized',	context=None,\n                                                terminal=True )\n        urec[True]		= urec", fires=[ 'G-LIMITS' ], why='defect BB reverted' ),
+    V( 'limits-unrecognized-item-limit-form', PARSER, "repeat='.length',\n terminal=True )", "limit='.length',\n                                                terminal=True )", silent=[ 'G-LIMITS' ] ),
+    V( 'closure-offsets-unchecked', DEVICE, "if not ( 0 <= beg <= end <= len( reqdata )):", "if False:", fires=[ 'P-CLOSURE' ], why='defect AY reverted' ),
+    V( 'closure-offsets-checked-in-two-tests', DEVICE, "if not ( 0 <= beg <= end <= len( reqdata )):", "if beg < 0 or end < beg or end > len( reqdata ):", silent=[ 'P-CLOSURE' ] ),
+    V( 'frag-write-remainder-ignored', LOGIX, "assert offremains == 0, \\\n \"Attribute %s write at offset %d begins within an element of %d bytes\" % (\n attribute, off, siz )", "pass", fires=[ 'F-FRAG' ], why='defect AZ (a) reverted' ),
+    V( 'frag-write-size-for-reads-too', LOGIX, "if ( data.service in (self.WR_TAG_RPY, self.WR_FRG_RPY)\n and data[context].get( 'type', STRING.tag_type ) < STRING.tag_type ):", "if ( data[context].get( 'type', STRING.tag_type ) < STRING.tag_type ):", fires=[ 'F-FRAG' ], why='a read must use the size of the tag element' ),
+    V( 'validate-plain-write-completeness-dropped', LOGIX, "assert data.service == self.WR_FRG_RPY or endmax == endactual, \\\n \"Attribute %s Write Tag of %d elements carries %d\" % (\n attribute, elm, len( data[context].data ))", "pass", fires=[ 'D-VALIDATE' ], why='defect BC reverted' ),
+    V( 'validate-plain-write-completeness-by-len', LOGIX, "assert data.service == self.WR_FRG_RPY or endmax == endactual, \\", "assert data.service == self.WR_FRG_RPY or len( data[context].data ) == elm, \\", silent=[ 'D-VALIDATE' ] ),
+    V( 'resolve-lone-path-unprotected', DEVICE, "try:\n ids = resolve( targetpath.path )\n target = lookup( *ids )\n except Exception as exc:\n ids,target = (None,None,None),None", "ids			= resolve( targetpath.path )\n            target		= lookup( *ids )", fires=[ 'S-RESOLVE' ], why='defect H reverted' ),
+    V( 'lone-failure-handed-on', DEVICE, "if ( target is None or not len( data.request.get( 'input', b'' ))\n or not isinstance( sys.exc_info()[1], Exception )):\n raise", "raise", fires=[ 'S-LONE' ], why='defect BA reverted' ),
 ]
 
 
